@@ -8,7 +8,6 @@ Harness: harness/inpkg/privval/zz_verif_c04_test.go   (real FilePV on files)
 """
 import json
 import os
-import random
 
 from vlib import core
 from vlib.core import Undecided, log
@@ -319,11 +318,17 @@ def run_cs_harness(ctx, scheds, nrandom, tag="cs"):
 
 def run(ctx):
     from concurrent.futures import ThreadPoolExecutor
+    pool = ThreadPoolExecutor(max_workers=3)
+    try:
+        return run_with(ctx, pool)
+    finally:
+        pool.shutdown(wait=True, cancel_futures=True)     # no TLC process outlives the check
+
+
+def run_with(ctx, pool):
     quick = ctx.tier == "quick"
     stats, nonvac = {}, {}
     W = 2                                   # TLC workers per run, three runs at a time: at most 8 workers
-    pool = ThreadPoolExecutor(max_workers=3)
-    rnd = random.Random(ctx.seed)
 
     def tlc(module, cfg, **kw):
         kw.setdefault("workers", W)
@@ -456,7 +461,6 @@ def run(ctx):
     f_det.result()
     nonvac["NoSelfLockout holds iff the WAL never loses synced records; the code as it is breaks it in two ways (undetected "
            "1..3-byte torn tail; #ENDHEIGHT 0 written into an empty head behind rotated files) - WAL defects, property C15"] = True
-    pool.shutdown()
 
     # ---- 5. trace validation (TLC judges the observed behaviour) --------------------------------
     v_pv = core.validate_traces(ctx, "TMSignerTrace", rows_pv, label="pv", max_events=4000)
